@@ -61,9 +61,16 @@ class G:
         if r < 0.97:
             cls = self.rng.choice(['footnote', 'endnote'])
             old = self.sink; self.sink = self.notes if old is None else old       # note bodies are collected at the end of the output
-            body = self.text(); self.sink = old
-            return ('<text:note text:id="ftn%d" text:note-class="%s"><text:note-citation>%s</text:note-citation><text:note-body><text:p>%s</text:p></text:note-body></text:note>'
-                    % (self.k, cls, self.rng.choice(['1', '1', '*', '2', 'i']), body))      # marks repeat, as they do across footnotes and endnotes
+            # a note body is a sequence of paragraphs and lists; a citation may be empty (the mark is then the text:label)
+            mk_list = lambda: '<text:list><text:list-item><text:p>%s</text:p></text:list-item></text:list>' % self.text()
+            where = self.rng.choice(['none', 'none', 'none', 'first', 'last'])
+            body = mk_list() if where == 'first' else ''                   # (generated in document order: the tokens are compared in order)
+            body += ''.join('<text:p>%s</text:p>' % self.text() for _ in range(self.rng.choice([1, 1, 2, 3])))
+            if where == 'last': body += mk_list()
+            self.sink = old
+            cit = self.rng.choice(['1', '1', '*', '2', 'i', ''])      # marks repeat, as they do across footnotes and endnotes
+            return ('<text:note text:id="ftn%d" text:note-class="%s"><text:note-citation%s>%s</text:note-citation><text:note-body>%s</text:note-body></text:note>'
+                    % (self.k, cls, ' text:label="*"' if cit == '' else '', cit, body))
         return self.text() + self.inline(depth + 1)
     def para(self):
         return '<text:p text:style-name="%s">%s</text:p>' % (self.rng.choice(['P1', 'Standard', 'P&amp;2']), ''.join(self.inline() for _ in range(self.rng.randint(1, 3))))
@@ -80,10 +87,28 @@ class G:
             items = ''.join('<text:list-item>%s</text:list-item>' % (self.para() + (self.sublist(depth + 1) if self.rng.random() < 0.3 else '')) for _ in range(self.rng.randint(1, 3)))
             return '<text:list text:style-name="L1">%s</text:list>' % items
         if r < 0.85:
-            rows = ''.join('<table:table-row>%s</table:table-row>' % ''.join('<table:table-cell office:value-type="string">%s</table:table-cell>' % self.para() for _ in range(2)) for _ in range(self.rng.randint(1, 2)))
+            def cell():
+                c = self.para()
+                if depth < 2 and self.rng.random() < 0.15:        # a table nested in the cell
+                    c += '<table:table table:name="%s" table:is-sub-table="true"><table:table-column/><table:table-row><table:table-cell office:value-type="string">%s</table:table-cell></table:table-row></table:table>' % (self.attr(), self.para())
+                return '<table:table-cell office:value-type="string">%s</table:table-cell>' % c
+            row = lambda: '<table:table-row>%s</table:table-row>' % ''.join(cell() for _ in range(2))
+            if self.rng.random() < 0.3:                         # header rows and a row group
+                rows = '<table:table-header-rows>%s</table:table-header-rows><table:table-rows>%s</table:table-rows>' % (row(), ''.join(row() for _ in range(self.rng.randint(1, 2))))
+            else:
+                rows = ''.join(row() for _ in range(self.rng.randint(1, 2)))
             return '<table:table table:name="%s"><table:table-column table:number-columns-repeated="2"/>%s</table:table>' % (self.attr(), rows)
         if r < 0.93:
-            return '<text:p><draw:frame draw:name="%s" text:anchor-type="paragraph" svg:width="5cm" svg:height="2cm"><draw:text-box>%s</draw:text-box></draw:frame></text:p>' % (self.attr(), self.para())
+            inner = self.para()
+            kind = self.rng.random()
+            if kind < 0.25:                                     # a frame anchored to the page: a child of office:text
+                return '<draw:frame draw:name="%s" text:anchor-type="page" svg:width="5cm" svg:height="2cm"><draw:text-box>%s</draw:text-box></draw:frame>' % (self.attr(), inner)
+            if kind < 0.5 and depth < 2:                        # a table inside the text box
+                inner += '<table:table table:name="%s"><table:table-column/><table:table-row><table:table-cell office:value-type="string">%s</table:table-cell></table:table-row></table:table>' % (self.attr(), self.para())
+            return '<text:p><draw:frame draw:name="%s" text:anchor-type="paragraph" svg:width="5cm" svg:height="2cm"><draw:text-box>%s</draw:text-box></draw:frame></text:p>' % (self.attr(), inner)
+        if r < 0.96:                                            # text, a frame anchored as a character, text
+            before = self.text(1); name = self.attr(); box = self.para(); after = self.text(1)
+            return '<text:p>%s<draw:frame draw:name="%s" text:anchor-type="as-char" svg:width="5cm" svg:height="2cm"><draw:text-box>%s</draw:text-box></draw:frame>%s</text:p>' % (before, name, box, after)
         return '<text:p><draw:frame draw:name="%s" svg:width="1cm" svg:height="1cm"><draw:image xlink:href="Pictures/p1.png" xlink:type="simple"/><svg:title>%s</svg:title></draw:frame></text:p>' % (self.attr(), self.title())
 
 def make_doc(rng, kind='text'):
